@@ -285,6 +285,12 @@ def plan_parent_repair(ch, prefix, design, hier, fno):
             m = info["target"][1]
             if design.mods[m].style == "gen":
                 continue
+            # the parent must be on *every* path from the top to the offender (then it is on the
+            # failing path whatever the traversal order, hence refused afterwards): no other module
+            # of the hierarchy instantiates the offender
+            others = [q for q in hier if q != p and any(i_["target"] == ["mod", m] for i_ in design.mods[q].insts.values())]
+            if others:
+                continue
             # no live port reference may involve this instance, and it is wired to plain signals
             # only: re-assigning an instance name leaves the old instance's back-references on
             # bundles and references behind, and what that means is not defined anywhere
